@@ -1976,6 +1976,9 @@ func (ss *ServerSession) handle(ctx context.Context, req *jsonrpc.Request) (any,
 		}
 	}
 
+	// establishes records that this request's metadata became the session's
+	// parameters (see the default case below).
+	establishes := false
 	switch req.Method {
 	case methodInitialize, methodPing, notificationInitialized, notificationRootsListChanged, methodSetLevel, methodSubscribe, methodUnsubscribe:
 		if validatedMeta.usesNewProtocol {
@@ -2012,6 +2015,7 @@ func (ss *ServerSession) handle(ctx context.Context, req *jsonrpc.Request) (any,
 			return nil, fmt.Errorf("method %q is invalid during session initialization", req.Method)
 		}
 		if !initialized && validatedMeta.usesNewProtocol && validatedMeta.initializeParams != nil {
+			establishes = true
 			ss.updateState(func(state *ServerSessionState) {
 				state.InitializeParams = validatedMeta.initializeParams
 			})
@@ -2051,6 +2055,16 @@ func (ss *ServerSession) handle(ctx context.Context, req *jsonrpc.Request) (any,
 
 	res, err := handleReceive(ctx, ss, req)
 	if err != nil {
+		if establishes {
+			// A request that is refused (unknown method, undecodable
+			// params, ...) establishes nothing: otherwise legacy traffic
+			// would be served from then on without any initialize.
+			ss.updateState(func(state *ServerSessionState) {
+				if state.InitializeParams == validatedMeta.initializeParams {
+					state.InitializeParams = nil
+				}
+			})
+		}
 		return nil, err
 	}
 	if validatedMeta.usesNewProtocol {
